@@ -9,4 +9,5 @@ let machines : (string * Base.machine) list = [
   "timer", TimerSpec.machine;
   "ringbuf", RingBuf.machine;
   "dlist", DList.machine;
+  "pheap", PHeapPtr.machine;
 ]
